@@ -1,14 +1,14 @@
 (* Properties/C28.v — No network access unless the configuration enables it.
    Statements only.  Model: Model/NetGate.v — the requests made by reading, ingredient import and signing
    over configuration (remote_manifest_fetch, ocsp_fetch, certificate_status_fetch) x asset kind
-   (embedded, remote-only, remote+embedded, none, OCSP responder named, OCSP stapled, remote-only with responder) x signer (TSA URL or
+   (embedded, remote-only, remote+embedded, none, OCSP responder named, OCSP stapled and usable, remote-only with responder, OCSP stapled but unusable) x signer (TSA URL or
    not) x operation x whether the resolver serves the remote manifest. *)
 From Coq Require Import List NArith Bool.
 From C2PA Require Import Model.NetGate Proofs.NetGateProofs.
 Import ListNotations.
 Open Scope N_scope.
 
-(* the whole finite domain, spelled out in Model/NetGate.v ([domain], 8 x 7 x 2 x 3 x 2 = 672 points),
+(* the whole finite domain, spelled out in Model/NetGate.v ([domain], 8 x 8 x 2 x 3 x 2 = 768 points),
    evaluated by vm_compute and lifted; [gated] is the property at one point *)
 Theorem c28_domain_checked : forallb (gated 7) domain = true.
 Proof. exact gated_domain. Qed.
@@ -43,10 +43,21 @@ Theorem c28_all_off_silent :
   forall u k o b, fst (requests (C false false false) (A k u) SNoTsa o b) = [].
 Proof. exact all_off_silent. Qed.
 
+(* stapled OCSP responses: a usable, conclusive staple settles revocation without any request in any
+   configuration; a staple that is present but unusable neither suppresses the fetch asked for by
+   verify.ocsp_fetch nor causes one when it is off *)
+Theorem c28_usable_staple_settles :
+  forall u c s o b, existsb is_ocsp (fst (requests c (A AEmbeddedStapled u) s o b)) = false.
+Proof. exact usable_staple_settles. Qed.
+
+Theorem c28_unusable_staple_falls_through :
+  forall u c s b, existsb is_ocsp (fst (requests c (A AEmbeddedStapledUnusable u) s OpRead b)) = ocspf c.
+Proof. exact unusable_staple_falls_through. Qed.
+
 (* non-vacuity: with the settings on, the requests are made *)
 Example c28_example :
   requests (C true true true) (A ARemoteOnly 7) SNoTsa OpRead true = ([RManifest 7], OOk) /\
   requests (C false true false) (A AEmbeddedAia 7) SNoTsa OpRead true = ([ROcsp], OOk) /\
   requests (C false false true) (A AEmbeddedAia 7) STsa OpSign true = ([ROcsp; RTsa], OErrTsa) /\
-  length domain = 672%nat.
+  length domain = 768%nat.
 Proof. vm_compute. repeat split. Qed.
